@@ -50,6 +50,7 @@ SPEC = {'id': 'C30',
                  'responses are delivered together with the request they answer (HTTP request/response pairing), never forged',
                  'cluster hash equal on all nodes in generated schedules (validate_hash is modelled, mismatch not generated)',
                  'default timer ratios (election factor = heartbeat, term timeout = 3 x heartbeat)'],
+ 'extra_runs': [{'name': 'adversarial', 'prop_arg': 'C27', 'full_theorems': [], 'partial_theorems': [], 'counterexamples': []}],
  'quick': {'extra_args': []},
  'thorough': {'extra_args': []},
  'extra_lean_targets': ['AgdbRaft.Props.C30pp']}
